@@ -489,3 +489,60 @@ def trims(R, ctx, rid):
         own = all(len(cs.args) == 2 and simp_deep(v.arg(cs, 1))[0] == "param" and fn.local_name(simp_deep(v.arg(cs, 1))[1]) == "count" for cs in calls)
         R.ob(rid, fn, "dispatch:" + name, kinds == {"ItemSlice", "BlockRange"} and own,
              "BlockSlice::%s forwards count to %s" % (name, sorted(kinds)))
+
+
+def known_state(R, ctx, rid):
+    """what a replica already holds of an incoming update's clients (BlockStore::known_state, used to drop duplicates before
+    integration): everything below the end of the client's list, minus every recorded hole."""
+    Y = ctx.yrs
+    fn = Y.fn("yrs::block_store::BlockStore::known_state")
+    v = FnView(fn)
+    R.rule(rid, "R-PROV+R-GUARD known state is hole-aware: BlockStore::known_state marks, for every client of the incoming block set "
+                "that the store knows, the clocks 0..next_clock(last block) as known and then removes every recorded hole of that "
+                "client — remove_range(BlockRange::new(ID(client, skip.start), skip.end - skip.start)) for each element of "
+                "skips.get(client).iter(), decided by nothing but the loops having an element; otherwise blocks that fill a hole "
+                "are dropped as duplicates before integration (BlockSet::exclude) and the hole stays open for ever")
+    ins = fn.calls_to("yrs::id_set::IdSet::insert")
+    rem = fn.calls_to("yrs::id_set::IdSet::remove_range")
+    R.floor(rid, "known_state: insert of the known prefix", len(ins), 1)
+    R.floor(rid, "known_state: removal of recorded holes", len(rem), 1)
+
+    def only_presence(cs):
+        bad = []
+        for l in v.guards(cs.bb):
+            t = simp(l.term)
+            if t[0] == "call" and l.polarity == "Some" and re.search(r"(Iterator>::next|HashMap(<.*>)?::get|IdSet::get|IdMapInner(<.*>)?::get)$", F.strip_generics(t[1])):
+                continue
+            bad.append(l.desc[:90])
+        return bad
+    for cs, site in ordinal_sites(ins):
+        idt = simp_deep(v.arg(cs, 1, 14))
+        ln = simp_deep(v.arg(cs, 2, 14))
+        zero = idt[0] == "call" and idt[1].endswith("ID::new") and len(idt[2]) == 2 and simp_deep(idt[2][1])[0] == "const" and str(simp_deep(idt[2][1])[1]) in ("0", "0_u32")
+        upto = term_has_call(ln, "yrs::block::Block::next_clock") and term_has_call(ln, "yrs::block_store::ClientBlockList::last") and term_has_field(ln, "BlockStore.clients")
+        bad = only_presence(cs)
+        R.ob(rid, fn, "prefix:" + site, zero and upto and not bad,
+             "known prefix = ID(client, 0) .. next_clock(last block of the store's list)" if zero and upto and not bad else
+             "known prefix is insert(%s, %s) narrowed by %s" % (sshow(idt, 5), sshow(ln, 5), bad[:2]), cs.loc())
+    for cs, site in ordinal_sites(rem):
+        a = simp_deep(v.arg(cs, 1, 14))
+        ok_shape = a[0] == "call" and a[1].endswith("BlockRange::new") and len(a[2]) == 2
+        start_ok = len_ok = False
+        if ok_shape:
+            idt, ln = simp_deep(a[2][0]), simp_deep(a[2][1])
+            if idt[0] == "call" and idt[1].endswith("ID::new") and len(idt[2]) == 2:
+                c = simp_deep(idt[2][1])
+                start_ok = c[0] == "field" and c[1].endswith("Range.start") and term_has_call(c, "re:Iterator>::next$")
+            d = ln
+            while d[0] == "field" and d[1] == "tuple.0":
+                d = simp_deep(d[2])
+            if d[0] == "bin" and d[1].replace("WithOverflow", "") == "Sub":
+                x, y = simp_deep(d[2]), simp_deep(d[3])
+                len_ok = x[0] == "field" and x[1].endswith("Range.end") and y[0] == "field" and y[1].endswith("Range.start")
+        src = term_has_field(simp_deep(v.arg(cs, 1, 18)), "BlockStore.skips") or any(term_has_field(l.term, "BlockStore.skips") for l in v.guards(cs.bb))
+        bad = only_presence(cs)
+        inloop = fn.cfg().in_loop(cs.bb)
+        ok = ok_shape and start_ok and len_ok and src and not bad and inloop
+        R.ob(rid, fn, "holes:" + site, ok,
+             "every recorded hole of the client is removed from the known state (start = skip.start, len = skip.end - skip.start)" if ok else
+             "hole removal is remove_range(%s): start=%s len=%s from-skips=%s per-element=%s narrowed by %s" % (sshow(a, 6), start_ok, len_ok, src, inloop, bad[:2]), cs.loc())
